@@ -199,6 +199,10 @@ def run(ctx, rep):
     st = list(g.calls('io_writer_step'))
     ok = bool(st) and any('latest_state' in g.expr(c.ops[1]) for c in st) and any(i.op == 'store' and g.expr(i.ops[1]) == '&latest_state' and g.expr(i.ops[0]).endswith('task->state') for i in g.all_insts())
     rep.check(ok, 'R-C08-3', 'thread mode: task->state after the writer callback is passed to io_writer_step', g.file, '', function='io_writer_thread', construct='writer state hand-over')
+    # the state handed to io_writer_step must be produced in the same iteration: no path from one call to the next without a new assignment
+    lst = [i for i in g.all_insts() if i.op == 'store' and g.expr(i.ops[1]) == '&latest_state' and g.loop_of(i.block) is not None]
+    fresh = bool(st) and bool(lst) and not any(c.id in g.reach([c], stop={x.id for x in lst}) for c in st)
+    rep.check(fresh, 'R-C08-3', 'thread mode: every iteration of the writer thread assigns the state it reports (no stale state counted twice)', g.file, '%d assignments in the loop' % len(lst), function='io_writer_thread', construct='stale writer state')
     ws = P.fn('io_writer_step')
     rep.analysed(ws)
     inc = [i for i in ws.all_insts() if i.op == 'store' and 'writer_error[' in ws.expr(i.ops[1])]
